@@ -19,11 +19,17 @@ def zb(x): return to_z3_bool(x)
 
 
 class PayloadV:
-    """a payload with its own symbolic hash"""
+    """the byte vector inside a Payload, with its own symbolic hash"""
     def __init__(self, tag): self.tag = tag; self.h = z3.Int(f'hash_{tag}')
     def py_clone(self, ex): return self
     def py_eq(self, ex, o): return isinstance(o, PayloadV) and o.tag == self.tag
     def __repr__(self): return f'payload<{self.tag}>'
+
+
+def pay_of(v):
+    v = deref_all(v)
+    if isinstance(v, Agg) and v.fields and isinstance(deref_all(v.fields[0]), PayloadV): return deref_all(v.fields[0])
+    return v if isinstance(v, PayloadV) else None
 
 
 def run(rep, db, tier):
@@ -31,7 +37,7 @@ def run(rep, db, tier):
     holder = [None]
     R.install(ex, db, lambda: holder[0])
     # payload hash: per payload object (the generic handler model uses one symbol for "the" proposal payload)
-    ex.model(r'zksync_consensus_roles::validator::messages::block::Payload::hash', lambda e, n, a: Opaque(deref_all(a[0]).h) if isinstance(deref_all(a[0]), PayloadV) else NotImplemented)
+    ex.model(r'zksync_consensus_roles::validator::messages::block::Payload::hash', lambda e, n, a: Opaque(pay_of(a[0]).h) if pay_of(a[0]) is not None else NotImplemented)
     ex.user_models.insert(0, ex.user_models.pop()); ex._um_cache = {}
     t0 = time.time()
     key = db.find_one(SAVE, kinds=('fn',))
@@ -45,12 +51,12 @@ def run(rep, db, tier):
             n = w.num(f'cache_num{i}')
             if nums: ex.assume(nums[-1].e < n.e)
             nums.append(n)
-            inner = []
+            inner_ = []
             for j in range(1 + ex.choose(2, f'cache_payloads{i}')):
                 p = PayloadV(f'{i}_{j}')
-                for _, q in inner: ex.assume(q.h != p.h)
-                inner.append((Opaque(p.h), p))
-            ents.append((mk.tuple_struct(R.V + r'block::BlockNumber', n), MapV(inner, False, 'map')))
+                for _, q in inner_: ex.assume(pay_of(q).h != p.h)
+                inner_.append((Opaque(p.h), mk.tuple_struct(R.V + r'block::Payload', p)))
+            ents.append((mk.tuple_struct(R.V + r'block::BlockNumber', n), MapV(inner_, False, 'map')))
         w.state(dict(proposals=MapV(ents, True)), light=True)
         qc, d = w.commit_qc('fin', own=True)
         r = coro.run_async(ex, key, [Ref(w.sm_cell), Ref(Cell(Opaque('ctx'))), Ref(Cell(qc))])
@@ -93,7 +99,7 @@ def run(rep, db, tier):
         fb = blk.fields[0] if variant_name(blk) in ('FinalV2', 'Final') else None
         if fb is None:
             need(pc, 'save_block:not-a-final-block', 'save_block queues something that is not a finalized block', z3.BoolVal(False)); continue
-        pay = deref_all(fld(fb, 'payload')); just = fld(fb, 'justification')
+        pay = pay_of(fld(fb, 'payload')); just = fld(fb, 'justification')
         need(pc, 'save_block:wrong-certificate', 'the finalized block does not carry the commit certificate it was finalised by', zb(values_equal(ex, just, qc)))
         need(pc, 'save_block:wrong-payload', 'the payload of the finalized block is not the one the commit certificate certifies (payload hash / block number differ)',
              z3.And(z3.BoolVal(isinstance(pay, PayloadV)), (pay.h == d['hash']) if isinstance(pay, PayloadV) else z3.BoolVal(False), have_any))
